@@ -183,6 +183,15 @@ func vinput(c vCall) any {
 	return c.Val
 }
 
+// vsnap: the values of a MatchSnapshot call. Form "library-values": next to the text, values
+// of the library's own types (a matcher, a Config) - Go values like any other.
+func vsnap(c vCall) []any {
+	if c.Form == "library-values" {
+		return []any{c.Val, match.Any("user.id", "user.token").Placeholder("<id>"), match.Type[string]("name"), snaps.WithConfig(snaps.Filename("x"))}
+	}
+	return []any{c.Val}
+}
+
 func vjsonMatchers(c vCall) []match.JSONMatcher {
 	var ms []match.JSONMatcher
 	for _, m := range c.Matchers {
@@ -384,9 +393,9 @@ func call_{{SFX}}(t testing.TB, c vCall, idx int) {
 		switch c.API {
 		case "snap":
 			if c.Pkg {
-				snaps.MatchSnapshot(rec, c.Val)
+				snaps.MatchSnapshot(rec, vsnap(c)...)
 			} else {
-				cfg.MatchSnapshot(rec, c.Val)
+				cfg.MatchSnapshot(rec, vsnap(c)...)
 			}
 		case "json":
 			if c.Pkg {
